@@ -9,6 +9,10 @@ C37 — helper lemmas (property theorems are in Props.lean).
   * `toMatrix`: reading of a list of rows as a Mathlib matrix, `toMatrix_mul_of_matMul`
   * block structure of Mathlib matrices: `sum_fibre`, `closed_block_mul_right/left`, `card_le_of_mul_eq_one`
   * csr layout: `layoutRows`, `layout_entries`, `layout_rowLengths`
+  * completeness: `dot`, `TrivialKernel`, annihilator invariant `ann_step`, `gjLoop_complete`,
+    `inverse_complete_list`, `trivialKernel_of_det`
+  * pipeline: `dbd_mul` (block-diagonal product on lists), `listEquiv`, `toMatrix_permute/unpermute`,
+    `invertDiagonalBlocks_left`, `invertPermuted_left`
 -/
 import PorepyVerif.C37.Model
 import Mathlib.Tactic.Ring
@@ -1169,5 +1173,640 @@ theorem extractBlocks_lengths (A : Mat) (o : Nat) (ss : List Nat) (h : o + ss.su
     congr 1
     omega
 
+
+
+/-! ### completeness of the Gauss–Jordan loop -/
+
+/-- dot product (truncating to the shorter list) -/
+def dot : Vec → Vec → Rat
+  | a :: as, x :: xs => a * x + dot as xs
+  | _, _ => 0
+
+@[simp] theorem dot_nil_left (x : Vec) : dot [] x = 0 := rfl
+@[simp] theorem dot_nil_right (a : Vec) : dot a [] = 0 := by cases a <;> rfl
+@[simp] theorem dot_cons (a x : Rat) (as xs : Vec) : dot (a :: as) (x :: xs) = a * x + dot as xs := rfl
+
+theorem dot_zeros_left (k : Nat) (x : Vec) : dot (zeros k) x = 0 := by
+  induction k generalizing x with
+  | zero => rfl
+  | succ k ih => cases x <;> simp [zeros_succ, ih]
+
+theorem dot_zeros_right (a : Vec) (k : Nat) : dot a (zeros k) = 0 := by
+  induction k generalizing a with
+  | zero => simp [zeros]
+  | succ k ih => cases a <;> simp [zeros_succ, ih]
+
+theorem dot_append (a b c d : Vec) (h : a.length = c.length) :
+    dot (a ++ b) (c ++ d) = dot a c + dot b d := by
+  induction a generalizing c with
+  | nil => cases c <;> simp_all
+  | cons x a ih =>
+    cases c with
+    | nil => simp at h
+    | cons y c => simp [ih c (by simpa using h)]; ring
+
+theorem dot_smul (c : Rat) (a x : Vec) : dot (smul c a) x = c * dot a x := by
+  induction a generalizing x with
+  | nil => simp
+  | cons y a ih => cases x <;> simp [ih]; ring
+
+theorem dot_vsub_smul (h : Rat) (a b x : Vec) (hl : a.length = b.length) :
+    dot (vsub a (smul h b)) x = dot a x - h * dot b x := by
+  induction a generalizing b x with
+  | nil => cases b <;> simp_all
+  | cons y a ih =>
+    cases b with
+    | nil => simp at hl
+    | cons z b =>
+      cases x with
+      | nil => simp
+      | cons w x => simp [ih b x (by simpa using hl)]; ring
+
+/-- `e_i · c = c_i` -/
+theorem dot_unitVec (k i : Nat) (cs : Vec) (hk : cs.length = k) (hi : i < k) :
+    dot (unitVec k i) cs = cs[i]?.getD 0 := by
+  induction k generalizing i cs with
+  | zero => omega
+  | succ k ih =>
+    cases cs with
+    | nil => simp at hk
+    | cons c cs =>
+      cases i with
+      | zero => simp [unitVec_zero_succ, dot_zeros_left]
+      | succ i => simp [unitVec_succ_succ, ih i cs (by simpa using hk) (by omega)]
+
+/-- list-level non-singularity: the only vector orthogonal to all rows is zero -/
+def TrivialKernel (n : Nat) (A : Mat) : Prop :=
+  ∀ x : Vec, x.length = n → (∀ a ∈ A, dot a x = 0) → x = zeros n
+
+theorem extractPivot_mem (todo : List Row) (p : Row) (rest : List Row)
+    (h : extractPivot todo = some (p, rest)) : ∀ r ∈ todo, r = p ∨ r ∈ rest := by
+  induction todo generalizing p rest with
+  | nil => simp [extractPivot] at h
+  | cons r rs ih =>
+    unfold extractPivot at h
+    split at h
+    · simp at h
+    · split at h
+      · simp only [Option.some.injEq, Prod.mk.injEq] at h
+        obtain ⟨rfl, rfl⟩ := h
+        intro x hx
+        rcases List.mem_cons.mp hx with rfl | hx
+        · exact Or.inl rfl
+        · exact Or.inr hx
+      · split at h
+        · simp at h
+        · rename_i p' rest' hrec
+          simp only [Option.some.injEq, Prod.mk.injEq] at h
+          obtain ⟨rfl, rfl⟩ := h
+          intro x hx
+          rcases List.mem_cons.mp hx with rfl | hx
+          · exact Or.inr List.mem_cons_self
+          · rcases ih p' rest' hrec x hx with h1 | h1
+            · exact Or.inl h1
+            · exact Or.inr (List.mem_cons_of_mem _ h1)
+
+/-- if no pivot is found although every row still has a leading entry, all leading entries are 0 -/
+theorem extractPivot_none (todo : List Row) (hne : ∀ r ∈ todo, r.1 ≠ [])
+    (h : extractPivot todo = none) : ∀ r ∈ todo, ∃ t, r.1 = 0 :: t := by
+  induction todo with
+  | nil => intro r hr; cases hr
+  | cons r rs ih =>
+    unfold extractPivot at h
+    split at h
+    · rename_i hnil
+      exact absurd hnil (hne r List.mem_cons_self)
+    · rename_i hd tl hr
+      split at h
+      · simp at h
+      · rename_i hz
+        have hz0 : hd = 0 := by simpa using hz
+        split at h
+        · rename_i hrec
+          intro x hx
+          rcases List.mem_cons.mp hx with rfl | hx
+          · exact ⟨tl, by rw [hr, hz0]⟩
+          · exact ih (fun r' hr' => hne r' (List.mem_cons_of_mem _ hr')) hrec x hx
+        · simp at h
+
+
+
+theorem elimRow_snd (pn r : Row) (h : Rat) (t : Vec) (hr : r.1 = h :: t) :
+    (elimRow pn r).2 = vsub r.2 (smul h pn.2) := by
+  unfold elimRow
+  simp [hr]
+
+/-- one elimination step does not enlarge the common annihilator of the (full) rows -/
+theorem ann_step (n : Nat) (A0 : Mat) (hA0 : ∀ a ∈ A0, a.length = n) (pn r : Row) (x : Vec)
+    (hpn : pn.2.length = n) (hr : r.2.length = n) (hne : r.1 ≠ [])
+    (h1 : dot (vecMat n pn.2 A0) x = 0) (h2 : dot (vecMat n (elimRow pn r).2 A0) x = 0) :
+    dot (vecMat n r.2 A0) x = 0 := by
+  cases hr1 : r.1 with
+  | nil => exact absurd hr1 hne
+  | cons h t =>
+    rw [elimRow_snd pn r h t hr1, vecMat_vsub_smul n h r.2 pn.2 A0 (by rw [hr, hpn]),
+      dot_vsub_smul _ _ _ _ (by rw [length_vecMat n _ A0 hA0, length_vecMat n _ A0 hA0]), h1] at h2
+    simpa using h2
+
+theorem gjLoop_complete (n : Nat) (A0 : Mat) (hA0 : ∀ a ∈ A0, a.length = n)
+    (hker : TrivialKernel n A0) :
+    ∀ (fuel : Nat) (done todo : List Row),
+      (∀ i (h : i < done.length), RowOK n A0 (unitVec done.length i) done[i]) →
+      (∀ r ∈ todo, RowOK n A0 (zeros done.length) r) →
+      done.length + todo.length = n → todo.length ≤ fuel →
+      (∀ x : Vec, (∀ r ∈ done ++ todo, dot (vecMat n r.2 A0) x = 0) → ∀ a ∈ A0, dot a x = 0) →
+      ∃ res, gjLoop fuel done todo = some res := by
+  intro fuel
+  induction fuel with
+  | zero =>
+    intro done todo _ _ _ hfuel _
+    have : todo = [] := List.eq_nil_of_length_eq_zero (by omega)
+    subst this
+    exact ⟨done, by simp [gjLoop]⟩
+  | succ fuel ih =>
+    intro done todo hdone htodo hcount hfuel hann
+    unfold gjLoop
+    cases todo with
+    | nil => exact ⟨done, rfl⟩
+    | cons t ts =>
+      simp only
+      have hkn : done.length < n := by simp only [List.length_cons] at hcount; omega
+      have hne : ∀ pre (r : Row), pre.length = done.length → RowOK n A0 pre r → r.1 ≠ [] := by
+        intro pre r hpre hr hnil
+        have := rowOK_rest_length n A0 hA0 _ _ hr
+        rw [hnil, hpre] at this; simp at this; omega
+      cases hpiv : extractPivot (t :: ts) with
+      | none =>
+        exfalso
+        have hz := extractPivot_none (t :: ts) (fun r hr => hne _ r (by simp) (htodo r hr)) hpiv
+        -- the vector (heads of the finished rows, -1, 0, …, 0) is orthogonal to every row
+        let cs : Vec := done.map (fun r => r.1.headD 0)
+        let x : Vec := cs ++ ((-1 : Rat) :: zeros (n - done.length - 1))
+        have hcs : cs.length = done.length := by simp [cs]
+        have hxlen : x.length = n := by simp [x, cs]; omega
+        have hall : ∀ r ∈ done ++ (t :: ts), dot (vecMat n r.2 A0) x = 0 := by
+          intro r hr
+          rcases List.mem_append.mp hr with hrd | hrt
+          · obtain ⟨i, hi, rfl⟩ := List.getElem_of_mem hrd
+            obtain ⟨_, hv⟩ := hdone i hi
+            have hne1 := hne _ _ (by simp) (hdone i hi)
+            cases h1 : done[i].1 with
+            | nil => exact absurd h1 hne1
+            | cons c tl =>
+              rw [hv, h1, dot_append _ _ _ _ (by simp [hcs]), dot_unitVec _ _ _ hcs hi]
+              have : cs[i]?.getD 0 = c := by simp [cs, hi, h1]
+              rw [this, dot_cons, dot_zeros_right]
+              ring
+          · obtain ⟨tl, htl⟩ := hz r hrt
+            obtain ⟨_, hv⟩ := htodo r hrt
+            rw [hv, htl, dot_append _ _ _ _ (by simp [hcs]), dot_zeros_left, dot_cons, dot_zeros_right]
+            ring
+        have hx0 := hker x hxlen (hann x hall)
+        have h1 : x[done.length]? = some (-1) := by
+          simp only [x]
+          rw [List.getElem?_append_right (by simp [hcs])]
+          simp [hcs]
+        rw [hx0] at h1
+        simp [zeros, hkn] at h1
+      | some pr =>
+        obtain ⟨p, rest⟩ := pr
+        simp only
+        obtain ⟨hpmem, hrest, hrl, c, pt, hp1, hc⟩ := extractPivot_spec _ p rest hpiv
+        rw [hp1]
+        simp only
+        have hpOK := htodo p hpmem
+        have hpn := norm_step n A0 done.length p c pt hpOK hp1 hc
+        refine ih _ _ ?_ ?_ ?_ ?_ ?_
+        · intro i h
+          simp only [List.length_append, List.length_map, List.length_cons, List.length_nil] at h ⊢
+          by_cases hi : i < done.length
+          · rw [List.getElem_append_left (by simpa using hi), List.getElem_map]
+            rw [unitVec_succ_lt _ _ hi]
+            exact elim_step n A0 done.length _ _ _ hpn (hdone i hi) (by simp)
+              (hne _ _ (by simp) (hdone i hi))
+          · have hie : i = done.length := by omega
+            subst hie
+            rw [List.getElem_append_right (by simp)]
+            simp only [List.length_map, Nat.sub_self, List.getElem_cons_zero]
+            rw [unitVec_succ_self]
+            exact hpn
+        · intro r hr
+          obtain ⟨r', hr', rfl⟩ := List.mem_map.mp hr
+          simp only [List.length_append, List.length_map, List.length_cons, List.length_nil]
+          rw [zeros_succ']
+          exact elim_step n A0 done.length _ _ _ hpn (htodo r' (hrest r' hr')) (by simp)
+            (hne _ _ (by simp) (htodo r' (hrest r' hr')))
+        · simp only [List.length_append, List.length_map, List.length_cons, List.length_nil]
+          simp only [List.length_cons] at hcount hrl
+          omega
+        · simp only [List.length_map]
+          simp only [List.length_cons] at hfuel hrl
+          omega
+        · intro x hx a ha
+          apply hann x _ a ha
+          -- x annihilates the normalised pivot row, hence the pivot row
+          have hpnx : dot (vecMat n (smul c⁻¹ p.2) A0) x = 0 :=
+            hx (smul c⁻¹ pt, smul c⁻¹ p.2) (by simp)
+          have hpx : dot (vecMat n p.2 A0) x = 0 := by
+            rw [vecMat_smul, dot_smul] at hpnx
+            rcases mul_eq_zero.mp hpnx with h0 | h0
+            · exact absurd (inv_eq_zero.mp h0) hc
+            · exact h0
+          have hstep : ∀ r : Row, r.2.length = n → r.1 ≠ [] →
+              elimRow (smul c⁻¹ pt, smul c⁻¹ p.2) r ∈
+                (done.map (elimRow (smul c⁻¹ pt, smul c⁻¹ p.2)) ++ [(smul c⁻¹ pt, smul c⁻¹ p.2)]) ++
+                  rest.map (elimRow (smul c⁻¹ pt, smul c⁻¹ p.2)) →
+              dot (vecMat n r.2 A0) x = 0 := by
+            intro r hr2 hr1 hmem
+            exact ann_step n A0 hA0 _ r x hpn.1 hr2 hr1 hpnx (hx _ hmem)
+          intro r hr
+          rcases List.mem_append.mp hr with hrd | hrt
+          · obtain ⟨i, hi, rfl⟩ := List.getElem_of_mem hrd
+            exact hstep _ (hdone i hi).1 (hne _ _ (by simp) (hdone i hi))
+              (by simp only [List.mem_append, List.mem_map]; exact Or.inl (Or.inl ⟨_, List.getElem_mem hi, rfl⟩))
+          · rcases extractPivot_mem _ p rest hpiv r hrt with rfl | hrr
+            · exact hpx
+            · exact hstep r (htodo r hrt).1 (hne _ _ (by simp) (htodo r hrt))
+                (by simp only [List.mem_append, List.mem_map]; exact Or.inr ⟨r, hrr, rfl⟩)
+
+
+
+theorem inverse_complete_list (A : Mat) (hsq : isSquare A.length A = true)
+    (hker : TrivialKernel A.length A) : ∃ B, inverse A = some B := by
+  obtain ⟨_, hrows⟩ := (isSquare_iff _ _).mp hsq
+  have hloop := gjLoop_complete A.length A hrows hker A.length [] (A.zip (identity A.length))
+    (by intro i h; simp at h)
+    (by
+      intro r hr
+      obtain ⟨h1, h2⟩ := zip_identity_rows A.length A hrows r hr
+      exact ⟨h2, by simpa [zeros] using h1⟩)
+    (by simp) (by simp)
+    (by
+      intro x hx a ha
+      obtain ⟨i, hi, rfl⟩ := List.getElem_of_mem ha
+      have hmem : (A[i], (identity A.length)[i]'(by simpa using hi)) ∈ A.zip (identity A.length) := by
+        have : (A.zip (identity A.length))[i]'(by simpa using hi) = (A[i], (identity A.length)[i]'(by simpa using hi)) := by
+          simp
+        rw [← this]; exact List.getElem_mem _
+      have h1 := (zip_identity_rows A.length A hrows _ hmem).1
+      have h2 := hx _ (by simpa using hmem)
+      rw [h1] at h2
+      exact h2)
+  obtain ⟨res, hres⟩ := hloop
+  exact ⟨res.map (·.2), by simp [inverse, hsq, hres]⟩
+
+/-- `dot` as a finite sum -/
+theorem dot_eq_sum (a x : Vec) :
+    dot a x = ∑ j ∈ Finset.range a.length, a[j]?.getD 0 * x[j]?.getD 0 := by
+  induction a generalizing x with
+  | nil => simp
+  | cons y a ih =>
+    cases x with
+    | nil => simp
+    | cons w x =>
+      rw [dot_cons, ih x, List.length_cons, Finset.sum_range_succ']
+      simp [add_comm]
+
+/-- a matrix with non-zero determinant has, read as a list of rows, a trivial kernel -/
+theorem trivialKernel_of_det (n : Nat) (A : Mat) (hsq : isSquare n A = true)
+    (hdet : IsUnit (toMatrix n A).det) : TrivialKernel n A := by
+  obtain ⟨hl, hrows⟩ := (isSquare_iff _ _).mp hsq
+  intro x hx hall
+  have hv : Matrix.mulVec (toMatrix n A) (fun j : Fin n => x[(j : Nat)]?.getD 0) = 0 := by
+    funext i
+    have hi : (i : Nat) < A.length := by rw [hl]; exact i.2
+    have := hall A[(i : Nat)] (List.getElem_mem hi)
+    rw [dot_eq_sum, hrows _ (List.getElem_mem hi), Finset.sum_range] at this
+    simp only [Matrix.mulVec, dotProduct, toMatrix, entry_eq', Pi.zero_apply]
+    refine Eq.trans ?_ this
+    apply Finset.sum_congr rfl
+    intro j _
+    simp [hi]
+  have h0 := Matrix.eq_zero_of_mulVec_eq_zero hdet.ne_zero hv
+  apply List.ext_getElem
+  · simp [hx]
+  · intro j h1 h2
+    have := congrFun h0 ⟨j, by omega⟩
+    simp only [Pi.zero_apply] at this
+    simp [zeros] at this ⊢
+    simpa [h1] using this
+
+
+
+/-! ### block-diagonal product on lists -/
+
+theorem vadd_append (a b c d : Vec) (h : a.length = c.length) :
+    vadd (a ++ b) (c ++ d) = vadd a c ++ vadd b d := by
+  unfold vadd
+  exact List.zipWith_append h
+
+theorem vadd_zeros_zeros (k : Nat) : vadd (zeros k) (zeros k) = zeros k := by
+  have := vadd_zeros_left (zeros k)
+  simpa using this
+
+/-- zero coefficients in front skip the corresponding rows -/
+theorem vecMat_zeros_append (w : Nat) (P M : Mat) (v : Vec) (hP : ∀ r ∈ P, r.length = w)
+    (hM : ∀ r ∈ M, r.length = w) :
+    vecMat w (zeros P.length ++ v) (P ++ M) = vecMat w v M := by
+  induction P with
+  | nil => simp [zeros]
+  | cons p P ih =>
+    rw [List.length_cons, zeros_succ, List.cons_append, List.cons_append, vecMat_cons,
+      ih (fun r h => hP r (List.mem_cons_of_mem _ h)), smul_zero_left, hP p List.mem_cons_self]
+    have hl : (vecMat w v M).length = w := length_vecMat w v M hM
+    have := vadd_zeros_left (vecMat w v M)
+    rwa [hl] at this
+
+/-- zero coefficients behind, and the rows they would multiply, can be dropped -/
+theorem vecMat_append_zeros (w : Nat) (x : Vec) (M1 M2 : Mat) (t : Nat) (hx : x.length = M1.length)
+    (h1 : ∀ r ∈ M1, r.length = w) (h2 : ∀ r ∈ M2, r.length = w) :
+    vecMat w (x ++ zeros t) (M1 ++ M2) = vecMat w x M1 := by
+  induction x generalizing M1 with
+  | nil =>
+    cases M1 with
+    | nil => simp [vecMat_zeros w t M2 h2]
+    | cons m M1 => simp at hx
+  | cons c x ih =>
+    cases M1 with
+    | nil => simp at hx
+    | cons m M1 =>
+      simp only [List.cons_append, vecMat_cons]
+      rw [ih M1 (by simpa using hx) (fun r h => h1 r (List.mem_cons_of_mem _ h))]
+
+theorem zeros_add3 (o s t : Nat) : zeros (o + s + t) = zeros o ++ zeros s ++ zeros t := by
+  simp only [zeros, List.replicate_append_replicate]
+
+/-- coefficients times padded rows = padded (coefficients times rows) -/
+theorem vecMat_map_pad (o s t : Nat) (x : Vec) (B : Mat) (hB : ∀ r ∈ B, r.length = s) :
+    vecMat (o + s + t) x (B.map (fun r => zeros o ++ r ++ zeros t))
+      = zeros o ++ vecMat s x B ++ zeros t := by
+  induction x generalizing B with
+  | nil => simp only [vecMat_nil_left]; exact zeros_add3 o s t
+  | cons c x ih =>
+    cases B with
+    | nil => simp only [List.map_nil, vecMat_nil_right]; exact zeros_add3 o s t
+    | cons b B =>
+      simp only [List.map_cons, vecMat_cons]
+      rw [ih B (fun r h => hB r (List.mem_cons_of_mem _ h)), smul_append, smul_append, smul_zeros,
+        smul_zeros]
+      have hb : b.length = s := hB b List.mem_cons_self
+      have hl : (vecMat s x B).length = s := length_vecMat s x B (fun r h => hB r (List.mem_cons_of_mem _ h))
+      rw [vadd_append _ _ _ _ (by simp [hb, hl]), vadd_append _ _ _ _ (by simp), vadd_zeros_zeros,
+        vadd_zeros_zeros]
+
+theorem unitVec_append_zeros (s q t : Nat) (hq : q < s) : unitVec s q ++ zeros t = unitVec (s + t) q := by
+  induction t with
+  | zero => simp [zeros]
+  | succ t ih =>
+    rw [zeros_succ', ← List.append_assoc, ih, ← Nat.add_assoc, unitVec_succ_lt _ _ (by omega)]
+
+theorem zeros_append_unitVec (o m q : Nat) : zeros o ++ unitVec m q = unitVec (o + m) (o + q) := by
+  induction o with
+  | zero => simp [zeros]
+  | succ o ih =>
+    rw [zeros_succ, List.cons_append, ih, show o + 1 + m = (o + m) + 1 by omega,
+      show o + 1 + q = (o + q) + 1 by omega, unitVec_succ_succ]
+
+theorem pad_unitVec (o s t q : Nat) (hq : q < s) :
+    zeros o ++ unitVec s q ++ zeros t = unitVec (o + s + t) (o + q) := by
+  rw [List.append_assoc, unitVec_append_zeros s q t hq, zeros_append_unitVec, Nat.add_assoc]
+
+
+
+/-- a block together with its (left) inverse, both square of the same size -/
+def GoodPair (B X : Mat) : Prop :=
+  matMul B.length X B = identity B.length ∧ X.length = B.length ∧
+    (∀ r ∈ B, r.length = B.length) ∧ (∀ r ∈ X, r.length = B.length)
+
+theorem denseBlockDiag_width (n : Nat) (Bs : List Mat) (hsq : SquareBlocks Bs) (o : Nat)
+    (h : o + (Bs.map List.length).sum ≤ n) : ∀ r ∈ denseBlockDiag n o Bs, r.length = n := by
+  induction Bs generalizing o with
+  | nil => intro r hr; cases hr
+  | cons B Bs ih =>
+    simp only [List.map_cons, List.sum_cons] at h
+    intro r hr
+    simp only [denseBlockDiag, List.mem_append, List.mem_map] at hr
+    rcases hr with ⟨b, hb, rfl⟩ | hr
+    · have := hsq B List.mem_cons_self b hb
+      simp [this]; omega
+    · exact ih (fun B' hB' => hsq B' (List.mem_cons_of_mem _ hB')) (o + B.length) (by omega) r hr
+
+theorem denseBlockDiag_length (n : Nat) (Bs : List Mat) (o : Nat) :
+    (denseBlockDiag n o Bs).length = (Bs.map List.length).sum := by
+  induction Bs generalizing o with
+  | nil => rfl
+  | cons B Bs ih => simp [denseBlockDiag, ih]
+
+theorem goodPair_square (Bs Xs : List Mat) (hF : List.Forall₂ GoodPair Bs Xs) :
+    SquareBlocks Bs ∧ Xs.map List.length = Bs.map List.length := by
+  induction hF with
+  | nil => exact ⟨fun B hB => absurd hB List.not_mem_nil, rfl⟩
+  | cons h _ ih =>
+    constructor
+    · intro B' hB'
+      rcases List.mem_cons.mp hB' with rfl | hB'
+      · exact h.2.2.1
+      · exact ih.1 B' hB'
+    · simp [h.2.1, ih.2]
+
+theorem dbd_mul (n : Nat) (Bs Xs : List Mat) (hF : List.Forall₂ GoodPair Bs Xs) :
+    ∀ (o : Nat) (P : Mat), P.length = o → (∀ r ∈ P, r.length = n) →
+      o + (Bs.map List.length).sum = n →
+      (denseBlockDiag n o Xs).map (fun y => vecMat n y (P ++ denseBlockDiag n o Bs))
+        = (List.range' o (Bs.map List.length).sum).map (unitVec n) := by
+  induction hF with
+  | nil => intro o P _ _ _; rfl
+  | cons hBX hrest ih =>
+    rename_i B X Bs Xs
+    intro o P hPl hPw hsum
+    subst hPl
+    obtain ⟨hmul, hXl, hBr, hXr⟩ := hBX
+    simp only [List.map_cons, List.sum_cons] at hsum ⊢
+    have hsqBs := (goodPair_square Bs Xs hrest).1
+    have hn : n = P.length + B.length + (n - P.length - B.length) := by omega
+    have hpadw : ∀ r ∈ B.map (fun r => zeros P.length ++ r ++ zeros (n - P.length - B.length)), r.length = n := by
+      intro r hr
+      obtain ⟨b, hb, rfl⟩ := List.mem_map.mp hr
+      simp [hBr b hb]; omega
+    have hrestw := denseBlockDiag_width n Bs hsqBs (P.length + B.length) (by omega)
+    simp only [denseBlockDiag, List.map_append, List.map_map, hXl]
+    rw [← List.range'_append_1, List.map_append]
+    congr 1
+    · -- the rows of the first block
+      have hrow : ∀ x ∈ X,
+          ((fun y => vecMat n y (P ++ (B.map (fun r => zeros P.length ++ r ++ zeros (n - P.length - B.length)) ++
+              denseBlockDiag n (P.length + B.length) Bs))) ∘
+            fun r => zeros P.length ++ r ++ zeros (n - P.length - B.length)) x
+          = zeros P.length ++ vecMat B.length x B ++ zeros (n - P.length - B.length) := by
+        intro x hx
+        simp only [Function.comp_apply]
+        rw [List.append_assoc,
+          vecMat_zeros_append n P _ _ hPw (by
+            intro r hr
+            rcases List.mem_append.mp hr with h | h
+            · exact hpadw r h
+            · exact hrestw r h),
+          vecMat_append_zeros n x _ _ _ (by simp [hXr x hx]) hpadw hrestw]
+        have := vecMat_map_pad P.length B.length (n - P.length - B.length) x B hBr
+        rw [← hn] at this
+        exact this
+      rw [List.map_congr_left hrow]
+      have h1 : X.map (fun x => zeros P.length ++ vecMat B.length x B ++ zeros (n - P.length - B.length))
+          = (matMul B.length X B).map (fun u => zeros P.length ++ u ++ zeros (n - P.length - B.length)) := by
+        simp [matMul, List.map_map, Function.comp_def]
+      rw [h1, hmul, identity, List.map_map, List.range'_eq_map_range, List.map_map]
+      apply List.map_congr_left
+      intro q hq
+      simp only [Function.comp_apply]
+      rw [pad_unitVec P.length B.length (n - P.length - B.length) q (List.mem_range.mp hq), ← hn]
+    · have := ih (P.length + B.length) (P ++ B.map (fun r => zeros P.length ++ r ++ zeros (n - P.length - B.length)))
+        (by simp)
+        (by
+          intro r hr
+          rcases List.mem_append.mp hr with h | h
+          · exact hPw r h
+          · exact hpadw r h)
+        (by omega)
+      rw [List.append_assoc] at this
+      exact this
+
+
+
+section Perm
+open Matrix
+
+/-! ### permutations given as lists -/
+
+theorem perm_range_facts (n : Nat) (l : List Nat) (h : l.Perm (List.range n)) :
+    l.length = n ∧ l.Nodup ∧ (∀ i, i ∈ l ↔ i < n) := by
+  refine ⟨by simpa using h.length_eq, h.nodup_iff.mpr List.nodup_range, ?_⟩
+  intro i
+  rw [h.mem_iff, List.mem_range]
+
+/-- the bijection `k ↦ l[k]` of `Fin n` described by a list that is a permutation of `0 … n-1` -/
+def listEquiv (n : Nat) (l : List Nat) (h : l.Perm (List.range n)) : Fin n ≃ Fin n where
+  toFun k := ⟨l[(k : Nat)]'(by rw [(perm_range_facts n l h).1]; exact k.2),
+    ((perm_range_facts n l h).2.2 _).mp (List.getElem_mem _)⟩
+  invFun i := ⟨l.idxOf (i : Nat),
+    lt_of_lt_of_eq (List.idxOf_lt_length_of_mem (((perm_range_facts n l h).2.2 _).mpr i.2))
+      (perm_range_facts n l h).1⟩
+  left_inv k := by
+    apply Fin.ext
+    simp only
+    exact (perm_range_facts n l h).2.1.idxOf_getElem _ _
+  right_inv i := by
+    apply Fin.ext
+    simp only
+    exact List.getElem_idxOf _
+
+theorem listEquiv_apply (n : Nat) (l : List Nat) (h : l.Perm (List.range n)) (k : Fin n) :
+    ((listEquiv n l h k : Fin n) : Nat) = l[(k : Nat)]?.getD 0 := by
+  have : (k : Nat) < l.length := by rw [(perm_range_facts n l h).1]; exact k.2
+  simp [listEquiv, this]
+
+theorem listEquiv_symm_apply (n : Nat) (l : List Nat) (h : l.Perm (List.range n)) (i : Fin n) :
+    (((listEquiv n l h).symm i : Fin n) : Nat) = l.idxOf (i : Nat) := rfl
+
+theorem entry_permute (A : Mat) (rp cp : List Nat) (k l : Nat) (hk : k < rp.length) (hl : l < cp.length) :
+    entry (permute A rp cp) k l = entry A (rp[k]?.getD 0) (cp[l]?.getD 0) := by
+  rw [entry_eq']
+  simp [permute, hk, hl]
+
+theorem entry_unpermute (n : Nat) (Y : Mat) (rp cp : List Nat) (i j : Nat) (hi : i < n) (hj : j < n) :
+    entry (unpermute n Y rp cp) i j = entry Y (cp.idxOf i) (rp.idxOf j) := by
+  rw [entry_eq']
+  simp [unpermute, hi, hj]
+
+theorem toMatrix_permute (n : Nat) (A : Mat) (rp cp : List Nat) (hr : rp.Perm (List.range n))
+    (hc : cp.Perm (List.range n)) :
+    toMatrix n (permute A rp cp) = (toMatrix n A).submatrix (listEquiv n rp hr) (listEquiv n cp hc) := by
+  ext k l
+  simp only [toMatrix, Matrix.submatrix_apply]
+  rw [entry_permute A rp cp k l (by rw [(perm_range_facts n rp hr).1]; exact k.2)
+    (by rw [(perm_range_facts n cp hc).1]; exact l.2), listEquiv_apply, listEquiv_apply]
+
+theorem toMatrix_unpermute (n : Nat) (Y : Mat) (rp cp : List Nat) (hr : rp.Perm (List.range n))
+    (hc : cp.Perm (List.range n)) :
+    toMatrix n (unpermute n Y rp cp)
+      = (toMatrix n Y).submatrix (listEquiv n cp hc).symm (listEquiv n rp hr).symm := by
+  ext i j
+  simp only [toMatrix, Matrix.submatrix_apply]
+  rw [entry_unpermute n Y rp cp i j i.2 j.2, listEquiv_symm_apply, listEquiv_symm_apply]
+
+/-- un-permuting a left inverse of the permuted matrix gives a left inverse of the matrix -/
+theorem unpermute_left_inverse {n : Nat} (A Y : Matrix (Fin n) (Fin n) ℚ) (er ec : Fin n ≃ Fin n)
+    (h : Y * A.submatrix er ec = 1) : Y.submatrix ec.symm er.symm * A = 1 := by
+  have hA : A = (A.submatrix er ec).submatrix er.symm ec.symm := by simp
+  rw [hA, Matrix.submatrix_mul_equiv, h, Matrix.submatrix_one_equiv]
+
+
+
+theorem foldl_add_eq_sum (l : List Nat) (a : Nat) : l.foldl (· + ·) a = a + l.sum := by
+  induction l generalizing a with
+  | nil => simp
+  | cons x l ih => simp [ih]; omega
+
+theorem forall₂_goodPair (Bs Xs : List Mat)
+    (h : List.Forall₂ (fun B X => inverse B = some X) Bs Xs) : List.Forall₂ GoodPair Bs Xs := by
+  refine List.Forall₂.imp ?_ h
+  intro B X hBX
+  obtain ⟨h1, h2⟩ := inverse_length B X hBX
+  exact ⟨inverse_left B X hBX, h1, (inverse_some B X hBX).1, h2⟩
+
+/-- The list-level identity that the driver also checks at run time: the assembled block-diagonal
+    inverse times the block-diagonal matrix is the identity. -/
+theorem invertDiagonalBlocks_left (n : Nat) (Bm : Mat) (sizes : List Nat) (r : BlockInverse)
+    (hlen : Bm.length = n)
+    (hsz : (sizes.filter (· > 0)).sum = n)
+    (hbd : Bm = denseBlockDiag n 0 (extractBlocks Bm 0 (sizes.filter (· > 0))))
+    (h : invertDiagonalBlocks Bm sizes = some r) :
+    matMul n r.dense Bm = identity n ∧ r.dense.length = n ∧ (∀ y ∈ r.dense, y.length = n) := by
+  unfold invertDiagonalBlocks at h
+  simp only at h
+  split at h
+  · cases h
+  · rename_i inv hinv
+    simp only [Option.some.injEq] at h
+    subst h
+    simp only
+    rw [foldl_add_eq_sum, Nat.zero_add, hsz]
+    have hF := invertAll_forall₂ _ _ hinv
+    have hG := forall₂_goodPair _ _ hF
+    obtain ⟨hsqX, hlenX⟩ := forall₂_inverse_square _ _ hF
+    have hBl : (extractBlocks Bm 0 (sizes.filter (· > 0))).map List.length = sizes.filter (· > 0) :=
+      extractBlocks_lengths Bm 0 _ (by omega)
+    have hmul := dbd_mul n _ _ hG 0 [] rfl (by simp) (by rw [hBl]; omega)
+    rw [List.nil_append, ← hbd, hBl, hsz, ← List.range_eq_range'] at hmul
+    refine ⟨hmul, ?_, ?_⟩
+    · rw [denseBlockDiag_length, hlenX, hBl, hsz]
+    · exact denseBlockDiag_width n inv hsqX 0 (by rw [hlenX, hBl]; omega)
+
+theorem invertPermuted_left (n : Nat) (A : Mat) (rp cp sizes : List Nat) (X : Mat)
+    (hr : rp.Perm (List.range n)) (hc : cp.Perm (List.range n))
+    (hsz : (sizes.filter (· > 0)).sum = n)
+    (hbd : permute A rp cp
+      = denseBlockDiag n 0 (extractBlocks (permute A rp cp) 0 (sizes.filter (· > 0))))
+    (h : invertPermuted n A rp cp sizes = some X) :
+    toMatrix n X * toMatrix n A = 1 := by
+  unfold invertPermuted at h
+  split at h
+  · cases h
+  · rename_i r hr'
+    simp only [Option.some.injEq] at h
+    subst h
+    have hBl : (permute A rp cp).length = n := by simp [permute, (perm_range_facts n rp hr).1]
+    have hBw : ∀ b ∈ permute A rp cp, b.length = n := by
+      intro b hb
+      simp only [permute, List.mem_map] at hb
+      obtain ⟨i, _, rfl⟩ := hb
+      simp [(perm_range_facts n cp hc).1]
+    obtain ⟨hmul, hYl, hYw⟩ := invertDiagonalBlocks_left n _ sizes r hBl hsz hbd hr'
+    have hM := toMatrix_mul_of_matMul n (permute A rp cp) r.dense hBl hBw hYl hYw hmul
+    rw [toMatrix_permute n A rp cp hr hc] at hM
+    rw [toMatrix_unpermute n r.dense rp cp hr hc]
+    exact unpermute_left_inverse _ _ _ _ hM
+
+
+end Perm
 
 end PorepyVerif.C37
